@@ -538,7 +538,7 @@ mod sr {
 
     #[derive(Clone)]
     pub struct St<const K: usize> {
-        pub tree: Tree<u8, K>,
+        pub tree: crate::report::AssertSync<Tree<u8, K>>,
         pub canon: Canon,
     }
     impl<const K: usize> std::fmt::Debug for St<K> {
@@ -566,20 +566,20 @@ mod sr {
         type Action = Act;
         fn init_states(&self) -> Vec<St<K>> {
             let t: Tree<u8, K> = Tree::with_root(0u8, 1);
-            vec![St { canon: canon(&t, self.probe_len), tree: t }]
+            vec![St { canon: canon(&t, self.probe_len), tree: crate::report::AssertSync(t) }]
         }
         fn actions(&self, s: &St<K>, acts: &mut Vec<Act>) {
-            acts.extend(actions(&s.tree, self.max_len));
+            acts.extend(actions(&s.tree.0, self.max_len));
         }
         fn next_state(&self, s: &St<K>, a: Act) -> Option<St<K>> {
-            let mut t = s.tree.clone();
+            let mut t = s.tree.0.clone();
             match apply(&mut t, &a) {
                 Err(_) => None,
                 Ok(_) => {
                     if invariant(&t).is_err() {
                         return None;
                     }
-                    Some(St { canon: canon(&t, self.probe_len), tree: t })
+                    Some(St { canon: canon(&t, self.probe_len), tree: crate::report::AssertSync(t) })
                 }
             }
         }
